@@ -277,11 +277,11 @@ CHECKS += [
 CHECKS += [
     {"id": "C10", "engine": "threads", "level": "model_checking",
      "technique": "preemption-bounded exploration of real threads at bytecode-instruction scheduling points",
-     "text": "A scheduler thread submitting 2 (thorough: 3) jobs against the DockerExecutor's real _start/_monitor/stop code running in a real monitor "
-     "thread, container layer faked in-process; every schedule with <=2 (quick) / <=3 (thorough) preemptions; when the monitor thread has ended "
-     "every submitted job must have been reported exactly once. The lost-job race is a known finding.",
-     "note": "Only the Docker executor is harnessed; AWS Batch, K8S, GCP Batch and Glue share the start/monitor/stop pattern but are not explored (their "
-     "cloud layers need larger fakes). GIL bytecode interleaving is the memory model."},
+     "text": "A scheduler thread submitting 2 (thorough: 3) jobs against the real _start/_monitor/stop/_submit code of the DockerExecutor and of the "
+     "AWSBatchExecutor (with and without the job arrayer's thread) running in real monitor threads, container / Batch API faked in-process; every schedule "
+     "with <=2 / <=1 (quick) or <=3 / <=2 (thorough) preemptions; when the monitor thread has ended every submitted job must have been reported "
+     "exactly once. The lost-job race is a known finding for both executors.",
+     "note": "K8S, GCP Batch and Glue share the start/monitor/stop pattern but are not harnessed. GIL bytecode interleaving is the memory model."},
 ]
 
 CHECKS += [
